@@ -327,46 +327,7 @@ func c04R2(w *World, r *Report) int {
 			}
 		}
 	}
-	if f := fnOrUndecided(w, r, rule, "UpdateMinMaxIndex"); f != nil {
-		ids := []int{1, 2, 3, 4} // existing.Min, existing.Max, newMin, newMax
-		checked, bad, aborted := 0, "", ""
-		weakOrders(4, func(rank []int) {
-			if bad != "" || aborted != "" {
-				return
-			}
-			o := rankOracle{rank: map[int]int{}}
-			for i, id := range ids {
-				o.rank[id] = rank[i]
-			}
-			checked++
-			in := &interp{w: w, or: o}
-			res, ab := in.run(f, []AVal{w.objOf("MinMaxIndex", map[string]AVal{"Min": aSymbol(1), "Max": aSymbol(2)}), aSymbol(3), aSymbol(4)})
-			if ab != "" {
-				aborted = ab
-				return
-			}
-			gotMin, gotMax := w.fieldOf(res[0], "MinMaxIndex", "Min"), w.fieldOf(res[0], "MinMaxIndex", "Max")
-			wantMin, wantMax := 1, 2
-			if o.Cmp(3, 1) < 0 {
-				wantMin = 3
-			}
-			if o.Cmp(4, 2) > 0 {
-				wantMax = 4
-			}
-			if gotMin.k != aSym || gotMax.k != aSym || o.Cmp(gotMin.sym, wantMin) != 0 || o.Cmp(gotMax.sym, wantMax) != 0 {
-				bad = describeOrder(ids, rank)
-			}
-		})
-		total += checked
-		switch {
-		case aborted != "":
-			r.undecided(rule, "UpdateMinMaxIndex", w.pos(f.Pos()), "not comparison-only: "+aborted)
-		case bad != "":
-			r.bad(rule, "UpdateMinMaxIndex", w.pos(f.Pos()), "result is not (min(existing.Min,newMin), max(existing.Max,newMax)) under ordering [existing.Min existing.Max newMin newMax] "+bad+": a block's range would not cover one of its rows")
-		default:
-			r.ok(rule, "UpdateMinMaxIndex", w.pos(f.Pos()), fmt.Sprintf("(min,max) on all %d orderings", checked))
-		}
-	}
+	total += updateMinMaxTable(w, r, rule)
 	if f := fnOrUndecided(w, r, rule, "clampUint64ToInt64"); f != nil {
 		bad, aborted := "", ""
 		for _, c := range []int{-1, 0, 1} {
@@ -576,4 +537,51 @@ func c04R4(w *World, r *Report) {
 		}
 	}
 	r.check(okc && n > 0, rule, "ConvertToMinMaxInt64:int=(v,v)", w.pos(fn.Pos()), "integers index as (v, v)", "an integer value is not indexed as the degenerate range (v, v)")
+}
+
+// updateMinMaxTable: UpdateMinMaxIndex returns (min(existing.Min,newMin),
+// max(existing.Max,newMax)) under every ordering of its four inputs. Shared by
+// C04, C11 (merged ranges) and C18 (ingest ranges), each under its own rule id.
+func updateMinMaxTable(w *World, r *Report, rule string) int {
+	checked := 0
+	if f := fnOrUndecided(w, r, rule, "UpdateMinMaxIndex"); f != nil {
+		ids := []int{1, 2, 3, 4} // existing.Min, existing.Max, newMin, newMax
+		bad, aborted := "", ""
+		weakOrders(4, func(rank []int) {
+			if bad != "" || aborted != "" {
+				return
+			}
+			o := rankOracle{rank: map[int]int{}}
+			for i, id := range ids {
+				o.rank[id] = rank[i]
+			}
+			checked++
+			in := &interp{w: w, or: o}
+			res, ab := in.run(f, []AVal{w.objOf("MinMaxIndex", map[string]AVal{"Min": aSymbol(1), "Max": aSymbol(2)}), aSymbol(3), aSymbol(4)})
+			if ab != "" {
+				aborted = ab
+				return
+			}
+			gotMin, gotMax := w.fieldOf(res[0], "MinMaxIndex", "Min"), w.fieldOf(res[0], "MinMaxIndex", "Max")
+			wantMin, wantMax := 1, 2
+			if o.Cmp(3, 1) < 0 {
+				wantMin = 3
+			}
+			if o.Cmp(4, 2) > 0 {
+				wantMax = 4
+			}
+			if gotMin.k != aSym || gotMax.k != aSym || o.Cmp(gotMin.sym, wantMin) != 0 || o.Cmp(gotMax.sym, wantMax) != 0 {
+				bad = describeOrder(ids, rank)
+			}
+		})
+		switch {
+		case aborted != "":
+			r.undecided(rule, "UpdateMinMaxIndex", w.pos(f.Pos()), "not comparison-only: "+aborted)
+		case bad != "":
+			r.bad(rule, "UpdateMinMaxIndex", w.pos(f.Pos()), "result is not (min(existing.Min,newMin), max(existing.Max,newMax)) under ordering [existing.Min existing.Max newMin newMax] "+bad+": a block's range would not cover one of its rows")
+		default:
+			r.ok(rule, "UpdateMinMaxIndex", w.pos(f.Pos()), fmt.Sprintf("(min,max) on all %d orderings", checked))
+		}
+	}
+	return checked
 }
